@@ -105,6 +105,11 @@ def check(ctx):
         u, r = timer_discipline(ctx, a, cls)
         n_unreg += u
         n_arm += r
+        # a request whose Deferred has fired is settled: if it stays in a window or in the queue, the resume loop, the refill or a
+        # retry timer writes it again later - so on every path that fires the Deferred of a registry entry, the entry leaves its
+        # registry on that path
+        from .flows import rule_fire_once
+        rule_fire_once(ctx, cat, prefix="R-SETTLED")
         # ---------------- R-LOSS ----------------
         for tr, what, ok, ev in hd.loss_obligations():
             fn = tr.entry.func
